@@ -243,11 +243,23 @@ func (s *server) GetTable(ctx context.Context, req *btapb.GetTableRequest) (*bta
 func (s *server) DeleteTable(ctx context.Context, req *btapb.DeleteTableRequest) (*emptypb.Empty, error) {
 	s.mu.Lock()
 	defer s.mu.Unlock()
-	if _, ok := s.tables[req.Name]; !ok {
+	tbl, ok := s.tables[req.Name]
+	if !ok {
 		return nil, status.Errorf(codes.NotFound, "table %q not found", req.Name)
+	}
+	// Make the deletion durable: a storage layer that persists table metadata must forget the table,
+	// or it comes back (with all its data) the next time the server is started on that storage.
+	if d, ok := s.storage.(tableMetaDeleter); ok {
+		d.DeleteTableMeta(tbl.def)
 	}
 	delete(s.tables, req.Name)
 	return &emptypb.Empty{}, nil
+}
+
+// tableMetaDeleter is implemented by storage layers that persist table metadata (see Storage.SetTableMeta).
+type tableMetaDeleter interface {
+	// DeleteTableMeta removes the persisted metadata of a table, so that GetTables no longer returns it.
+	DeleteTableMeta(tbl *btapb.Table)
 }
 
 func (s *server) ModifyColumnFamilies(ctx context.Context, req *btapb.ModifyColumnFamiliesRequest) (*btapb.Table, error) {
